@@ -350,7 +350,7 @@ Dec(ty, s) == LET r == DecAt(ty, s, 1) IN IF r.ok THEN [ok |-> TRUE, v |-> r.v, 
 \* ---------------------------------------------------------------- encoding with layout
 \* mark: [p |-> 0-based offset, n |-> bytes, c |-> class, x |-> auxiliary 8-byte little-endian number]
 \*   "fix"  fixed-width field (u, bytes)              x = 0
-\*   "bits" bitfield                                  x = 0
+\*   "bits" bitfield                                  x = number of meaningful bits (the rest is padding)
 \*   "nat"  general natural value                     x = its value
 \*   "len"  length / count prefix                     x = its value
 \*   "disc" option / variant discriminator, boolean   x = number of valid values (0..x-1)
@@ -379,7 +379,7 @@ ELPairs(kt, vt, ps, i, off) ==
        [b |-> hk.b \o hv.b \o r.b, m |-> <<Mark(off, n, "ent", 0)>> \o hk.m \o hv.m \o r.m]
 EL(ty, v, off) ==
   CASE ty.k \in {"u", "bytes"} -> [b |-> v, m |-> <<Mark(off, Len(v), "fix", 0)>>]
-    [] ty.k = "bits" -> LET b == EncC(ty, v) IN [b |-> b, m |-> <<Mark(off, Len(b), "bits", 0)>>]
+    [] ty.k = "bits" -> LET b == EncC(ty, v) IN [b |-> b, m |-> <<Mark(off, Len(b), "bits", ty.n)>>]
     [] ty.k = "rest" -> [b |-> v, m |-> IF Len(v) > 0 THEN <<Mark(off, Len(v), "body", 0)>> ELSE <<>>]
     [] ty.k = "nat" -> LET b == EncC(ty, v) IN [b |-> b, m |-> <<MarkV(off, Len(b), "nat", Pad8(v))>>]
     [] ty.k = "blob" ->
@@ -412,7 +412,7 @@ EL(ty, v, off) ==
          [b |-> LE(Len(r.b) + 1, 4) \o <<ty.alts[v[1]].tag>> \o r.b,
           m |-> <<Mark(off, 4, "flen", 0), Mark(off + 4, 1, "ftag", 0)>> \o r.m]
     [] ty.k = "ur" -> [b |-> v, m |-> <<Mark(off, Len(v), "fix", 0)>>]
-    [] ty.k = "pbits" -> [b |-> v, m |-> <<Mark(off, Len(v), "bits", 0)>>]
+    [] ty.k = "pbits" -> [b |-> v, m |-> <<Mark(off, Len(v), "bits", ty.n)>>]
     [] ty.k = "blobm" ->
          LET l == EncLen(Len(v)) IN
          [b |-> l \o v, m |-> <<Mark(off, Len(l), "len", Len(v))>> \o (IF Len(v) > 0 THEN <<Mark(off + Len(l), Len(v), "body", 0)>> ELSE <<>>)]
